@@ -266,13 +266,48 @@ func c10Run(b *core.B) {
 		b.NonTrivialStr(root.name, fmt.Sprint(h))
 		b.Count("random-long-histories")
 	}
+
+	// deep chains: 20-90 scopes below one another (nested loops, recursion and partials
+	// make such chains), values set on ancestors before and after their descendants exist
+	nd := 64
+	if b.Tier == core.Thorough {
+		nd = 4000
+	}
+	for i := 0; i < nd/b.NBatches+1; i++ {
+		root := roots[r.Intn(len(roots))]
+		var h []c10Op
+		depth := r.Range(20, 90)
+		live := 1
+		for live <= depth {
+			if r.Chance(1, 4) {
+				h = append(h, c10Op{i: r.Intn(live), k: r.Intn(3), v: r.Intn(3)})
+			}
+			h = append(h, c10Op{new: true, i: live - 1})
+			live++
+		}
+		for s := 0; s < 60; s++ {
+			if r.Chance(1, 10) {
+				h = append(h, c10Op{new: true, i: r.Intn(live)})
+				live++
+			} else {
+				h = append(h, c10Op{i: r.Intn(live), k: r.Intn(3), v: r.Intn(3)})
+			}
+		}
+		if !b.Begin(root.name + " deep chain " + fmt.Sprint(i)) {
+			continue
+		}
+		c10Drive(b, root, h, builtin, true)
+		b.NonTrivialStr(root.name, "deep", fmt.Sprint(h))
+		b.Count("deep-chain-histories")
+		b.Count(fmt.Sprintf("deep-chain-depth>=%d", depth/10*10))
+	}
 }
 
 func init() {
 	core.Register(&core.Prop{
 		ID:         "C10",
 		Level:      "exploration",
-		Rule:       "operations New(i) (at most 4 live contexts) and Set(i, k, v) with k in {a, b, len (a built-in helper's name)} and v in {1, 2, nil}, from 8 kinds of root (NewContext, NewContextWithContext, NewContextWith over 6 data maps incl. user values and a user nil under the built-in's name); every history of length 1..5 (quick) / 1..6 (thorough) is enumerated without state merging and re-driven on fresh real contexts; after its last operation Value(k) and Has(k) of every live context for k in {a, b, len, a never-set key} are compared with the chain-of-scopes reference model (all prefixes are histories of their own, so every intermediate state is checked too); plus 10k (100k) random histories of length 200 on up to 8 contexts checked after every operation. All histories are distinct by construction.",
+		Rule:       "operations New(i) (at most 4 live contexts) and Set(i, k, v) with k in {a, b, len (a built-in helper's name)} and v in {1, 2, nil}, from 8 kinds of root (NewContext, NewContextWithContext, NewContextWith over 6 data maps incl. user values and a user nil under the built-in's name); every history of length 1..5 (quick) / 1..6 (thorough) is enumerated without state merging and re-driven on fresh real contexts; after its last operation Value(k) and Has(k) of every live context for k in {a, b, len, a never-set key} are compared with the chain-of-scopes reference model (all prefixes are histories of their own, so every intermediate state is checked too); plus 10k (100k) random histories of length 200 on up to 8 contexts checked after every operation; plus 64 (4000) histories on chains of 20-90 nested scopes with Sets on ancestors before and after their descendants exist. All histories are distinct by construction.",
 		Assume:     []string{"keys reachable only through a wrapped context.Context are not compared", "the caller's map passed to NewContextWith is not inspected"},
 		Batches:    batchesQT(32, 128),
 		Run:        c10Run,
